@@ -48,22 +48,22 @@ def check(ctx):
     run = index_run(ctx, "R03")
     ctx.analysed_func(run)
     info = r03_1(ctx, run)
-    r03_2(ctx, run, info)
-    r03_3(ctx, run, info)
-    r03_4(ctx, run)
-    r03_7(ctx)
-    r03_5(ctx, run, info)
-    r03_6(ctx, run, info)
+    ctx.run(r03_2, run, info)
+    ctx.run(r03_3, run, info)
+    ctx.run(r03_4, run)
+    ctx.run(r03_7)
+    ctx.run(r03_5, run, info)
+    ctx.run(r03_6, run, info)
     ctx.not_decided.append("BGZF virtual-offset behaviour across 64 KiB blocks inside pysam (tell/seek contract)")
     ctx.assumptions.append("pysam BGZFile.tell() before a readline() returns a virtual offset that seek() resolves to the start of that line")
     # mechanisms this property rests on (see shared.py): a change there is reported here as well
     from . import shared as _sh
 
-    _sh.path_tokenisers(ctx)
-    _sh.gaf_reader(ctx)
-    _sh.graph_loader(ctx)
-    _sh.contig_paths(ctx)
-    _sh.cli_layer(ctx, "gaftools.cli.index")
+    ctx.run(_sh.path_tokenisers)
+    ctx.run(_sh.gaf_reader)
+    ctx.run(_sh.graph_loader)
+    ctx.run(_sh.contig_paths)
+    ctx.run(_sh.cli_layer, "gaftools.cli.index")
 
 
 def r03_1(ctx, run):
